@@ -3,7 +3,7 @@
    get_unitary_products, cost_derivative, compute_jac, VQABlock.__init__/get_unitary/
    get_unitary_derivative.
 
-   Parameters are NAMES (nat); the angle vector handed to the code is a list of names, normally
+   Angles are NAMES (nat); the angle vector handed to the code is a list of names, normally
    [0; 1; ...; L-1].  Operators live in an arbitrary algebra A (Section variables below); the same
    definitions are run (i) abstractly in the theorems and (ii) on the symbolic algebra [ex] by the
    correspondence harness, which evaluates the resulting expression trees numerically.
@@ -16,7 +16,7 @@ Import ListNotations.
 (* ---- blocks (VQABlock.__init__) ----------------------------------------------------------- *)
 Inductive kind :=
 | KHam                          (* operator: Qobj, is_unitary=False  -> exp(-i theta H), 1 parameter *)
-| KPH (m : nat)                 (* operator: ParameterizedHamiltonian with m parameterised terms     *)
+| KPH (m : nat)                 (* operator: multi-term parameterised Hamiltonian, m terms (class PH of vqa.py)*)
 | KUnit                         (* operator: Qobj, is_unitary=True   -> fixed unitary, 0 parameters  *)
 | KNative (needs_arg : bool)    (* operator: str (library gate); needs_arg = the gate wants an angle *)
 | KFunc.                        (* operator: python function t -> unitary, 1 parameter               *)
